@@ -35,6 +35,30 @@ class LockEngine(Engine):
         self.entry_opaque = ()
         Engine.__init__(self, mod, [], opaque={}, inline_filter=self._inline)
         self.wrappers = util.cas_wrappers(mod)
+        # C09.R8: the fields that the conditions waited for on these mutexes read (only a change of one of them needs a waking unlock): the
+        # struct fields loaded by the condition functions handed to nsync_mu_wait*; None (= every list / ready field) if one is not a constant
+        cf = set()
+        for f in mod.defined.values():
+            if not any((f.file or '').endswith(x) for x in self.files):
+                continue
+            for i in f.real_insts():
+                if i.op == 'call' and i.callee in CONDWAITS and len(i.ops) >= 2:
+                    c = i.ops[1]
+                    g = mod.func(c.get('n')) if isinstance(c, dict) and c.get('k') == 'func' else None
+                    if g is None or g.decl:
+                        if not (isinstance(c, dict) and c.get('k') == 'null'):
+                            cf = None
+                        continue
+                    for j in g.real_insts():
+                        if j.op == 'load' and isinstance(j.ops[0], str):
+                            lf = util.last_field(util.addr_class(mod, g, j.ops[0]))
+                            if lf:
+                                cf.add(lf)
+                if cf is None:
+                    break
+            if cf is None:
+                break
+        self.cond_fields = cf
     def memoizable(self, callee):
         return False
     def _inline(self, callee):
@@ -265,7 +289,7 @@ class LockEngine(Engine):
                         dz.add(k2[1])
                 self.record(Record('unlink', inst, st, field=fld, obj=obj, element=el, disczero=dz, held=dict(self.held(st)), entry=self.entry_name),
                             ('unlink', inst.fn.name, inst.id, st.stack(), repr(el), tuple(sorted(dz, key=repr))))
-            if fld in self.list_fields or fld in self.ready_fields:
+            if (fld in self.list_fields or fld in self.ready_fields) and (self.cond_fields is None or fld in self.cond_fields):
                 # C09.R8: this critical section changed state that conditional waiters of the object's mutex may be waiting for
                 st.ghost[('dirty', obj)] = 1
             if fld.endswith('.disconnecting'):
